@@ -69,7 +69,12 @@ def obligations(tier, seed):
     shapes = QUICK if tier == "quick" else list(SHAPES)
     for kind in ("rest", "numpydoc", "google"):
         for sid in shapes:
-            obs.append(mk_ob("rt", "rt", kind, sid, {"emit_default_doc": True}, tier, funcs=FUNCS))
-        for sid in (["p1_int_d", "p1_ret"] if tier == "quick" else shapes):
-            obs.append(mk_ob("rt", "rt", kind, sid, {"emit_default_doc": False}, tier, funcs=FUNCS))
+            # thorough: every shape at the quick bounds, the QUICK shapes additionally one character / one integer step deeper
+            obs.append(mk_ob("rt", "rt", kind, sid, {"emit_default_doc": True}, tier, funcs=FUNCS, pl=2, dr=2))
+            if tier != "quick" and sid in QUICK:
+                ob = mk_ob("rt", "rt", kind, sid, {"emit_default_doc": True}, tier, funcs=FUNCS, pl=3, dr=3, timeout=1200)
+                ob.name += "_deep"
+                obs.append(ob)
+        for sid in (["p1_int_d", "p1_ret"] if tier == "quick" else QUICK):
+            obs.append(mk_ob("rt", "rt", kind, sid, {"emit_default_doc": False}, tier, funcs=FUNCS, pl=2, dr=2))
     return obs
